@@ -312,7 +312,7 @@ func porninInnerSpec(c *Ctx, fn string, pointOps []string) *edt.Spec {
 	}
 	convOK := func(e *edt.Env) edt.Tri { return edt.And(e.V("dbOK"), e.V("e0OK"), e.V("e1OK")) }
 	return &edt.Spec{
-		Pkg: "curve", Func: fn, Opaque: append([]string{"Scalar.NonAdjacentForm"}, pointOps...), SymLoops: true, MinPaths: 1600, Vars: vars,
+		Pkg: "curve", Func: fn, Opaque: append([]string{"Scalar.NonAdjacentForm"}, pointOps...), SymLoops: true, MinPaths: 600, Vars: vars,
 		Classify: func(p *edt.Path, out string, e *edt.Env) string {
 			switch {
 			case p.Panic != nil:
